@@ -182,3 +182,51 @@ def run(ctx):
                    "this operation frees pages while snapshots that captured the old root can still read them lazily through the shared pager "
                    "(they see `page not allocated`, zeroed counts, or another structure's data once the page is reused): %s"
                    % (" -> ".join(x.split("::")[-1] for x in path) if path else ""), F.bodies[fn].file)
+
+    # ---- clause 4: publication order of the by-value roots ---------------------------------------------
+    # The snapshot constructor takes no common lock (C03.1, a known finding); what keeps the property-store root consistent with the
+    # run list is an order protocol: the reader reads `published_runs` first and loads `properties_root` / `stats_root` afterwards, the
+    # compactor stores the new roots first and clears the runs afterwards.  A reader that sees the cleared run list therefore sees the
+    # root of the tree the runs were sunk into.  Either half reversed gives a snapshot with neither the runs nor the tree: committed
+    # properties vanish for that snapshot's whole lifetime.
+    ctx.rule("C03.4", "order protocol for the roots captured by value: snapshot constructors read published_runs before they load properties_root / stats_root; compaction stores those roots before it replaces published_runs")
+    ROOTS = ("properties_root", "stats_root")
+
+    def uses_root(b, c):
+        """does this call load a root atomic (directly, or by taking a reference to the root field as an argument)"""
+        hit = set()
+        for ai in range(len(c.args)):
+            f = recv_field(b, c, ai)
+            if f and f[0] in ROOTS and f[1] == M.ENGINE:
+                hit.add(f[0])
+        return hit
+
+    for rd in (br, rb):
+        runs_reads = [c for c in rd.calls() if M.is_rw_read(c.name) and (recv_field(rd, c, 0) or ("",))[0] == "published_runs"]
+        loads = [(c, uses_root(rd, c)) for c in rd.calls() if not M.is_atomic_store(c.name)]
+        loads = [(c, h) for c, h in loads if h]
+        if not loads:
+            # the constructor delegates (GraphStore::snapshot -> begin_read): then begin_read's order is the order
+            delegates = [c for c in rd.calls() if c.name == M.BEGIN_READ]
+            ctx.instance("C03.4", "%s: delegates to begin_read=%s" % (rd.id.split("::")[-1], bool(delegates)))
+            ctx.oblige(bool(delegates), "C03.4", "%s:roots-not-captured" % rd.id, "the snapshot constructor neither loads the roots nor delegates to begin_read", rd.file)
+            continue
+        for c, h in loads:
+            ok = any(rd.dominates(r.bb, c.bb) and r.bb != c.bb for r in runs_reads)
+            ctx.instance("C03.4", "%s: load of %s after the read of published_runs=%s" % (rd.id.split("::")[-1], sorted(h), ok))
+            ctx.oblige(ok, "C03.4", "%s:loads(%s)-before-runs" % (rd.id, "+".join(sorted(h))),
+                       "the snapshot constructor loads the store root before it reads the run list: a compaction in between gives a snapshot with the "
+                       "old root and the cleared runs", c.loc())
+    cb = ctx.body(M.COMPACT)
+    sites = M.publication_sites(cb)
+    runs_w = [c for c, w in sites if w == "write(published_runs)"]
+    ctx.floor("C03.4", "compact: replacement of published_runs", len(runs_w), 1)
+    for r in ROOTS:
+        stores = [c for c, w in sites if w == "store(%s)" % r]
+        ctx.floor("C03.4", "compact: stores of %s" % r, len(stores), 1)
+        for k, s in enumerate(stores):
+            ok = all(cb.dominates(s.bb, w.bb) and s.bb != w.bb for w in runs_w)
+            ctx.instance("C03.4", "compact: store(%s)#%d before the runs are replaced=%s" % (r, k, ok))
+            ctx.oblige(ok, "C03.4", "compact:store(%s)#%d-after-runs-cleared" % (r, k),
+                       "compaction clears the run list before it publishes the new %s: a snapshot taken in between has neither the runs nor the tree "
+                       "they were sunk into (committed properties / statistics missing for its whole lifetime)" % r, s.loc())
